@@ -196,6 +196,11 @@ def oracle(sc, impl, aligned):
                         n, puts[0][2])))
             if s in ('failed', 'missing') and matching(n) and n in by_name and (f['err'].get(n) or [None])[0] != 'put':
                 out['C19'].append(('delivered-but-failed', 'module %d was delivered by a borrower but still counts as %s' % (n, s)))
+    # ---- C07 (any scenario): a module that was handed to the writer successfully is not reported as never found
+    if write:
+        for c in f['puts']:
+            if sc['put'].get(str(c[1]), True) and st.get(c[1]) == 'missing':
+                out['C07'].append(('written-but-missing', 'module %d was generated and written but is reported missing' % c[1]))
     # ---- C08 (any scenario): a module already parsed under another request is never fetched again
     registered, current = {}, None
     for c in impl['trace']:
